@@ -21,7 +21,7 @@ OPS = ["get_generating_symbols", "get_nullable_symbols", "get_reachable_symbols"
 
 
 def generate(ctx):
-    n = 600 if ctx.tier == "quick" else 8000
+    n = 600 if ctx.tier == "quick" else 40000
     cases = []
     for i in range(n):
         g = cfglib.rand_cfg(ctx.rng, names="plain" if ctx.rng.random() < 0.85 else "adv")
